@@ -1369,10 +1369,13 @@ class Encoder:
             r = self.intrinsic(state, m.group(1), args, dest_ty)
             if r is not None:
                 return ("value", r)
+        r = self.closure_call(state, func, args, pc)
+        if r is not None:
+            return r
         r = self.enum_cmp_model(state, func, args)
         if r is not None:
             return r
-        r = self.rangeint_model(state, func, args)
+        r = self.rangeint_model(state, func, args, pc)
         if r is not None:
             return r
         r = self.conversion_call(state, func, args, pc)
@@ -1382,6 +1385,26 @@ class Encoder:
         if r is not None:
             return r
         raise Refuse("call to %s" % sg)
+
+    CLOSURE_CALL = re.compile(r"^<\{closure@(.*)\} as (?:\w+::)*(Fn|FnMut|FnOnce)<.*>>::(call|call_mut|call_once)$")
+
+    def closure_call(self, state, func, args, pc):
+        """`<{closure@...} as Fn*<(Args,)>>::call*(env, (args,))`: inline the closure body found in the MIR dumps
+        (rust-call ABI: the argument tuple is spread over the closure's parameters)"""
+        m = self.CLOSURE_CALL.match(func.strip())
+        if not m or self.resolver is None or len(args) != 2:
+            return None
+        callee = self.resolver(func, 0, closure=m.group(1))
+        if callee is None:
+            return None
+        env = self.operand(state, args[0])
+        tup = self.operand(state, args[1])
+        if not isinstance(tup, VAgg):
+            return None
+        argv = [env] + [tup.f[k] for k in sorted(tup.f)]
+        if len(argv) != len(callee.args):
+            return None
+        return self.inline_fn(state, callee, "closure " + m.group(1)[:60], argv, pc)
 
     def enum_cmp_model(self, state, func, args):
         """derived PartialEq/PartialOrd/Ord on field-less enums = comparison of discriminants"""
@@ -1500,7 +1523,7 @@ class Encoder:
         t = {"eq": a == b, "ne": a != b, "lt": a < b, "le": a <= b, "gt": a > b, "ge": a >= b}[op]
         return ("value", VBool(t))
 
-    def rangeint_model(self, state, func, args):
+    def rangeint_model(self, state, func, args, pc=None):
         r = self.rangeint_conv(state, func, args)
         if r is not None:
             return r
@@ -1560,6 +1583,9 @@ class Encoder:
                 h = min(a.hi, b.hi) if meth == "min" else max(a.hi, b.hi)
                 return ("value", VAgg({0: VInt(self.name_int(t, "mm"), rty, l, h)}, tag=m.group(1)))
             if meth in ("div_ceil", "rem_ceil"):
+                if pc is not None and b.lo <= 0 <= b.hi:
+                    # i64::wrapping_div / wrapping_rem panic on a zero divisor
+                    self.obligations.append(Obligation("panic", "%s::%s: attempt to divide by zero" % (m.group(1), meth), self.mkand(pc, b.t == 0), "rangeint"))
                 r = self.binop("Div" if meth == "div_ceil" else "Rem", a, b)
                 return ("value", VAgg({0: r}, tag=m.group(1)))
             cb = self.as_const(b.t)
